@@ -215,6 +215,20 @@ theorem C07_setup_defaults (T spp p : Nat) :
     · simp only [Except.ok.injEq, Prod.mk.injEq] at h
       refine ⟨by omega, by omega, h.1.symm, h.2.symm⟩
 
+/-- **C07 (set-up, explicit values)**: an explicitly passed `min_steps` / `max_steps` - *including 0* - is what the
+condition uses; only an unset (`none`) one is replaced by the documented default (seed C07h: `min_steps or default`
+turned an explicit 0 into round(T/10)). -/
+theorem C07_setup_explicit (T mn mx : Nat) :
+    energySetup T true (some mn) (some mx) = .ok (mx, mn)
+    ∧ energySetup T true (some mn) none = .ok (T, mn)
+    ∧ energySetup T true none (some mx) = .ok (mx, roundTenth T) := ⟨rfl, rfl, rfl⟩
+
+/-- with an explicit `min_steps = 0` a run whose energy is already below the threshold halts at step 0 -/
+theorem C07_energy_min_zero (T maxS : Nat) (below : Nat → Bool) (h0 : below 0 = true) :
+    stopStep T (energyCond maxS 0 below) = 0 := by
+  have h := C07_stop_le_of_report T (energyCond maxS 0 below) 0 (by simp [energyCond, h0])
+  omega
+
 /-- the energy default `round(T/10)` never exceeds T (so the default minimum cannot block the run's end) -/
 theorem roundTenth_le (T : Nat) : roundTenth T ≤ T := by
   unfold roundTenth roundHalfEven
